@@ -542,8 +542,19 @@ pub fn caller_variables_opaque(cx: &Cx) -> bool {
 
 fn guard_differential(ev: &mut Ev, cx: &mut Cx, seed: u64, n: u64) {
     use gen_::{G, GTy};
+    // repaired by 3356709. The canary stays: a compiler without the repair overflows its stack on
+    // the shared-name instances (SIGABRT, uncatchable), so a revert is REPORTED here and the
+    // instances are not generated for it.
     let opaque = caller_variables_opaque(cx);
     ev.hit(if opaque { "guard:caller-variables-opaque" } else { "guard:caller-variables-shared(crosswise pairs not generated)" });
+    if !opaque {
+        ev.violation(
+            "unify=callers-type-variable-taken-for-callees",
+            "typing::unify confuses the caller's type variables with the callee's again (repair 3356709 missing): `g = #<'a>['a, 'a] { $0 }, h = #<'a>'a { [$, 1] g }` types h as #'a -> 'int; crosswise shared-name calls overflow the compiler's stack",
+            json!({"source": "g = #<'a>['a, 'a] { $0 },\nh = #<'a>'a { [$, 1] g },\n0xff h"}),
+            true,
+        );
+    }
     for i in 0..n {
         let mut r = Rng::for_case(seed ^ 0x6A4D, i);
         let mut g = G::new(&mut r);
@@ -967,6 +978,14 @@ fn run_regression_corpus(ev: &mut Ev, cx: &mut Cx) {
         let src = j["source"].as_str().unwrap_or("").to_string();
         let expect = j["expect"].as_str().unwrap_or("ok").to_string();
         let sig_if_broken = j["signature_if_broken"].as_str().unwrap_or("").to_string();
+        if sig_if_broken == "unify=callers-type-variable-taken-for-callees"
+            && !families::SHARED_NAMES_OK.load(std::sync::atomic::Ordering::Relaxed)
+        {
+            // the canary (guard differential) reports the missing repair; these programs would
+            // overflow the compiler's stack
+            ev.hit("regression:skipped-shared-names-on-unrepaired-compiler");
+            continue;
+        }
         let out = judge(&src, cx);
         ev.case(&src, out.kind.accepted());
         ev.hit(&format!("regression:{}", out.kind.tag()));
@@ -1039,11 +1058,11 @@ fn main() {
         std::process::exit(if out.kind.fails() { 1 } else { 0 });
     }
 
-    // 1. regression corpus first
+    // 1. regression corpus first (the canary before it: see `caller_variables_opaque`)
+    families::SHARED_NAMES_OK.store(caller_variables_opaque(&cx), std::sync::atomic::Ordering::Relaxed);
     run_regression_corpus(&mut ev, &mut cx);
 
     // 2. generated programs
-    families::SHARED_NAMES_OK.store(caller_variables_opaque(&cx), std::sync::atomic::Ordering::Relaxed);
     let n_programs = opts.tier.pick(900u64, 30000u64);
     let mut accepted_by_family: std::collections::BTreeMap<String, (u64, u64)> = Default::default();
     for i in 0..n_programs {
